@@ -139,15 +139,28 @@ def spec_eval(T, mode, pres, call, res, st):
             for kind, txt in event_sets(ev, mode):
                 if txt != "-" and not G.BS.parse(txt).eq(T.ccs if kind == "cpu" else T.cns):
                     bad.append(("full-not-complete:" + cmd, "set %s covers the topology but %s received %s" % (s.text(), ev[0], txt)))
-    # (d) ENOSYS without hook
-    if mode == "hooks" and not invalid and not (ln == 0 and cmd in ("samb", "gamb", "gaml")) and not (cmd == "amb" and fl & G.MIGRATE):
-        hs = API_HOOKS[cmd]
-        if len(hs) == 2 and cmd != "amb":
-            hs = (hs[0],) if fl & 1 else (hs[1],) if fl & 2 else hs
-        if not any(pres >> h & 1 for h in hs):
+    # (d) ENOSYS without hook: with scripted hooks the presence mask is the script's, through the hooks hwloc
+    # installed it is the slot mask the harness read from the topology (native Linux has no thisproc/proc membind)
+    pres_eff = pres if mode == "hooks" else T.hooks
+    hs = API_HOOKS[cmd]
+    if len(hs) == 2 and cmd != "amb":
+        hs = (hs[0],) if fl & 1 else (hs[1],) if fl & 2 else hs
+    if not invalid and not (ln == 0 and cmd in ("samb", "gamb", "gaml")) and not (cmd == "amb" and fl & G.MIGRATE):
+        if not any(pres_eff >> h & 1 for h in hs):
             ok = (failed and res["errno"] == "ENOSYS" and not bev) if not (cmd == "amb" and not fl & G.STRICT) else (not bev)
             if not ok:
-                bad.append(("enosys:" + cmd, "no hook among %r installed but rc=%d errno=%s events=%r" % (hs, res["rc"], res["errno"], bev)))
+                bad.append(("enosys:" + cmd, "no hook among %r installed (slots %x) but rc=%d errno=%s events=%r" % (hs, pres_eff, res["rc"], res["errno"], bev)))
+    # (d2) dispatch: PROCESS reaches only the process hook, THREAD only the thread hook, neither: process then thread
+    if mode == "hooks":
+        allowed_h = set(hs) | {20}
+        got = [int(e[0][1:]) for e in res["events"] if e[0].startswith("h")]
+        if any(h not in allowed_h for h in got) or (len(hs) == 2 and got[:1] == [hs[1]] and pres >> hs[0] & 1):
+            bad.append(("dispatch:" + cmd, "flags %d select hook(s) %r but the call reached %r" % (fl, hs, got)))
+        elif not invalid and not (ln == 0 and cmd in ("samb", "gamb", "gaml")) and cmd != "amb":
+            first = next((h for h in hs if pres >> h & 1), None)
+            gotb = [h for h in got if h != 20]
+            if first is not None and gotb[:1] != [first]:
+                bad.append(("dispatch:" + cmd, "hook %d is installed and selected by flags %d but the call reached %r (rc=%d errno=%s)" % (first, fl, got, res["rc"], res["errno"])))
     # (e) dummy hooks of a topology that is not this system
     if mode == "os" and not T.this:
         if res["events"]:
@@ -620,9 +633,15 @@ def loadtrace_part(run, exe, drv):
             thread |= 1 << rng.randrange(16)
         proc = thread | rng.getrandbits(16) | (1 << rng.randrange(16))
         cases.append((fl, G.BS(False, thread), G.BS(False, proc)))
+    small = [e for n, e in load_sources() if n.startswith("fsroot:2")]
+    envs = [[] for _ in cases]
+    if small:   # discovery from a tree with FEWER CPUs than the thread-level mask reports: still restored untruncated
+        for fl in (0, 0x12, 2):
+            cases.append((fl, G.BS(False, (1 << 5) | (1 << 11)), G.BS(False, 0xffff)))
+            envs.append(small[0])
     cs = []
-    for fl, th, pr in cases:
-        cs += ["os aff " + th.text(), "os affproc " + pr.text(), "os loadtrace %d" % fl]
+    for (fl, th, pr), ev in zip(cases, envs):
+        cs += ev + ["os aff " + th.text(), "os affproc " + pr.text(), "os loadtrace %d" % fl] + ["env " + x.split()[1] for x in ev]
     rc, out, err = C.sh([exe], input=("\n".join(cs) + "\n").encode(), env=C.run_env(), timeout=120)
     lts = [l for l in out.decode().split("\n") if l.startswith("LT ")]
     if rc != 0 or len(lts) != len(cases):
@@ -635,11 +654,12 @@ def loadtrace_part(run, exe, drv):
     rc2, out2, err2 = C.sh([drv], input=("\n".join(ms) + "\n").encode(), timeout=60)
     lxs = [l for l in out2.decode().split("\n") if l.startswith("LX")]
     nset = 0
-    for (fl, th, pr), lt, lx in zip(cases, lts, lxs):
+    for (fl, th, pr), ev, lt, lx in zip(cases, envs, lts, lxs):
         evs = EV_RE.findall(lt.split("|", 1)[1])
         sets = [a.split(",")[1] for n, a in evs if n == "setaffinity"]
         gets0 = [i for i, (n, a) in enumerate(evs) if n == "getaffinity" and a == "0"]
-        replay = "kind: input\nscript:\nos aff %s\nos affproc %s\nos loadtrace %d\nend-script\nimpl:  %s\nmodel: %s\n" % (th.text(), pr.text(), fl, lt, lx)
+        replay = "kind: input\nscript:\n%sos aff %s\nos affproc %s\nos loadtrace %d\nend-script\nimpl:  %s\nmodel: %s\n" % (
+            "".join(x + "\n" for x in ev), th.text(), pr.text(), fl, lt, lx)
         run.count(lt, nontrivial=bool(sets), kind="os:loadtrace", sample={"load": lt[:300], "model": lx[:300]})
         if sets:
             nset += 1
@@ -652,6 +672,90 @@ def loadtrace_part(run, exe, drv):
         else:
             run.cov["traces_validated_against_impl"] += 1
     run.cov["loadtrace"] = {"loads": len(cases), "loads_that_rebound": nset}
+
+
+def load_sources():
+    """(name, env lines) of every source kind a load can discover from, through the environment"""
+    from gen import topo_sources as TS
+    sc = TS.Scratch(cache=True)
+    srcs = [("native", [])]
+
+    def tb(kind, name):
+        p = os.path.join(C.REPO, "tests/hwloc", kind, name + ".tar.bz2")
+        return sc.unpack(p) if os.path.exists(p) else None
+    for nm in ("2i386-2t-hugepagesizecount", "2ps3-2t", "8ia64-2n2s2c", "128ia64-17n4s2c"):   # smaller and larger than this machine
+        d = tb("linux", nm)
+        if d:
+            srcs.append(("fsroot:" + nm, ["env HWLOC_FSROOT " + d]))
+    for nm in ("AMD-K8-SledgeHammer-2xOpteron-250", "Intel-Core-2xXeon-E5345"):
+        d = tb("x86", nm)
+        if d:
+            srcs.append(("cpuid:" + nm, ["env HWLOC_CPUID_PATH " + d]))
+    x = os.path.join(C.REPO, "tests/hwloc/xml/16em64t-4s2c2t-offlines.xml")
+    if os.path.exists(x):
+        srcs.append(("xml", ["env HWLOC_XMLFILE " + x]))
+    srcs.append(("synthetic:small", ["env HWLOC_SYNTHETIC pack:2 pu:2"]))
+    srcs.append(("synthetic:large", ["env HWLOC_SYNTHETIC numa:4 pack:4 core:8 pu:2"]))
+    return srcs
+
+
+COMPONENTS = (None, "x86", "linux", "linux,stop", "-x86", "x86,stop")
+
+
+def load_matrix_part(run, live):
+    """LIVE, observed: the caller's binding is the same before and after hwloc_topology_load() for every source kind
+    (native, HWLOC_FSROOT snapshots smaller and larger than this machine, cpuid dumps, XML, synthetic) x every
+    component selection x HWLOC_THISSYSTEM unset / 1, in the main thread (bound to a non-trivial set) and in a
+    worker thread bound to one PU.  A load may fail for some combinations; the binding must survive anyway."""
+    rc, out, err = C.sh([live], input=b"affinity\n", env=C.run_env(), timeout=60)
+    orig = G.BS.parse(out.decode().split("\n")[0].split("=", 1)[1])
+    cpus = [i for i in range(orig.fin.bit_length()) if orig.mem(i)]
+    nontrivial = G.BS(False, sum(1 << c for c in cpus[1::2]) or orig.fin)
+    picks = sorted(set([cpus[0], cpus[len(cpus) // 3], cpus[-1]]))
+    script = ["rawbind " + nontrivial.text(), "affinity"]
+    combos = []
+    for name, envs in load_sources():
+        for comp in COMPONENTS:
+            for this in (None, "1"):
+                e = list(envs) + (["env HWLOC_COMPONENTS " + comp] if comp else []) + (["env HWLOC_THISSYSTEM " + this] if this else [])
+                desc = "%s components=%s HWLOC_THISSYSTEM=%s" % (name, comp or "default", this or "unset")
+                combos.append(desc)
+                script += e + ["echo MX " + desc, "loadcheck 0"] + ["threadload %d %d" % (c, fl) for c, fl in zip(picks, (0, 18, 2))] + \
+                          ["env " + x.split()[1] for x in e]
+    script += ["affinity", "rawbind " + orig.text(), "affinity"]
+    rc, out, err = C.sh([live], input=("\n".join(script) + "\n").encode(), env=C.run_env(), timeout=900)
+    if rc != 0:
+        run.violation("live-loadmatrix-crash", "live harness failed rc=%d" % rc, "kind: live\n" + err.decode(errors="replace")[-2500:])
+        return
+    desc, envlines, nl, nm, nfail = "?", [], 0, 0, 0
+    affs = []
+    for l in out.decode().split("\n"):
+        if l.startswith("echo MX "):
+            desc = l[8:]
+        elif l.startswith("L "):
+            kv = dict(f.split("=", 1) for f in l.split()[1:])
+            nl += 1
+            nfail += kv["rc"] != "0"
+            run.count(desc + "|" + l, nontrivial=True, kind="live:loadmatrix", sample={"source": desc, "live": l})
+            if kv["before"] != kv["after"]:
+                run.violation("live-load-changes-binding:" + desc.split()[0].split(":")[0], "hwloc_topology_load (%s) changed the caller's affinity from %s to %s" % (desc, kv["before"], kv["after"]),
+                              "kind: live\nsource: %s\nscript:\nrawbind %s\nloadcheck 0\nend-script\n%s\n" % (desc, nontrivial.text(), l))
+        elif l.startswith("M "):
+            kv = dict(f.split("=", 1) for f in l.split()[1:])
+            nm += 1
+            run.count(desc + "|" + l, nontrivial=True, kind="live:loadmatrix-thread")
+            if kv["bind_rc"] == "0" and (kv["after"] != kv["before"] or kv["main_after"] != kv["main_before"]):
+                run.violation("live-load-changes-thread-binding:" + desc.split()[0].split(":")[0],
+                              "hwloc_topology_load (%s, flags %s) in a thread bound to PU %s: thread %s -> %s, main thread %s -> %s" % (
+                                  desc, kv["flags"], kv["cpu"], kv["before"], kv["after"], kv["main_before"], kv["main_after"]),
+                              "kind: live\nsource: %s\nscript:\nthreadload %s %s\nend-script\n%s\n" % (desc, kv["cpu"], kv["flags"], l))
+        elif l.startswith("A raw="):
+            affs.append(l.split("=", 1)[1])
+    if len(affs) != 3 or affs[0] != nontrivial.text() or affs[1] != nontrivial.text() or affs[2] != orig.text():
+        run.violation("live-loadmatrix-restore", "affinity sequence %r (test binding %s, original %s)" % (affs, nontrivial.text(), orig.text()), "kind: live\n")
+    if nl != len(combos) or nm != 3 * len(combos):
+        run.violation("live-loadmatrix-incomplete", "%d of %d loads, %d of %d threaded loads" % (nl, len(combos), nm, 3 * len(combos)), "kind: live\n" + out.decode()[-1500:], no_input=True)
+    run.cov["load_matrix"] = {"observed_not_proved": True, "combinations": len(combos), "loads": nl, "threaded_loads": nm, "loads_that_failed": nfail}
 
 
 def replay_script(path):
@@ -679,6 +783,7 @@ def check(run, replay=None):
     run.cov["clause_population"] = ev.stats
     loadtrace_part(run, exe, drv)
     live_part(run, live)
+    load_matrix_part(run, live)
     return run.finish(proof, trusted=TRUSTED)
 
 
